@@ -13,11 +13,13 @@ CROSS = {"C01-C": ["C08"], "C08-C": ["C02", "C06"], "C16-C": ["C04"], "C05-C": [
          "C12-B": ["C04", "C20"], "C16-A": ["C04"], "C19-B": ["C04"], "C19-D": ["C04"], "C20-A": ["C12", "C04"],
          # round 3 (E = first, F = second change of the round)
          "C01-E": ["C08"], "C01-F": ["C08"], "C12-E": ["C13"], "C17-F": ["C09"], "C04-E": ["C10"], "C03-F": ["C04"], "C08-F": ["C04"], "C11-F": ["C04"],
-         "C14-F": ["C04"], "C19-E": ["C01"], "C18-F": ["C20"]}
+         "C14-F": ["C04"], "C19-E": ["C01"], "C18-F": ["C20"],
+         # round 4 (G, H)
+         "C07-G": ["C01"], "C06-H": ["C04"], "C02-G": ["C04"], "C12-G": ["C13"], "C13-H": ["C12"], "C19-H": ["C07"], "C03-H": ["C12"]}
 THOROUGH_ONLY = {("C16-B", "C16"), ("C16-D", "C16")}
 # C19-E / C19-F change the refinement functions themselves (the subject of C08 / C07),
 # which C19 takes as given (it checks that each iteration uses the refinement of the previous result)
-OWN_BY_OTHER = {"C19-E": "C08", "C19-F": "C07"}
+OWN_BY_OTHER = {"C19-E": "C08", "C19-F": "C07", "C02-H": "C14"}   # C02-H: a compensation slot shared with the integral (C14's subject)
 PREFIX = {"5240915": ["C15"], "ac56e79": ["C15"], "bb5946d": ["C12"], "08987f4": ["C09"], "47037e0": ["C07"], "dfee5c7": ["C08"],
           "84d9fba": ["C05", "C03"], "4d363c6": ["C18"], "d91dcdf": ["C11"], "1c25063": ["C07"], "7c3b427": ["C05", "C03"]}
 
@@ -52,7 +54,7 @@ def main():
             for c in checks:
                 jobs.append(("prefix", commit, c, commit, True, "quick"))
     results = []
-    with concurrent.futures.ThreadPoolExecutor(max_workers=5) as ex:
+    with concurrent.futures.ThreadPoolExecutor(max_workers=7) as ex:
         futs = {ex.submit(run, j[3], j[2], j[4], j[5]): j for j in jobs}
         for f in concurrent.futures.as_completed(futs):
             j = futs[f]
